@@ -5,6 +5,7 @@ package main
 import (
 	"fmt"
 	"go/token"
+	"go/types"
 	"sort"
 	"strings"
 
@@ -96,6 +97,19 @@ func (P *Prog) requestFieldOf(v ssa.Value) string {
 	c := callValue(fa.X)
 	if c == nil {
 		return ""
+	}
+	// the request's GetField reached through a function value that a local parameter object carries
+	// (`creation{field: t.GetField}` … `c.field(FieldUserAccess)`): a bound method value of the transaction
+	if !c.Call.IsInvoke() && c.Call.StaticCallee() == nil {
+		if mc, isMC := stripConv(resolveLocal(stripConv(c.Call.Value))).(*ssa.MakeClosure); isMC {
+			if bf, isF := mc.Fn.(*ssa.Function); isF && strings.HasSuffix(bf.Name(), "$bound") && len(mc.Bindings) == 1 && len(c.Call.Args) == 1 {
+				if m, isM := bf.Object().(*types.Func); isM && m.Name() == "GetField" && typeName(mc.Bindings[0].Type()) == "*hotline.Transaction" {
+					if g, ok := globalName(c.Call.Args[0]); ok {
+						return strings.TrimPrefix(g, "hotline.")
+					}
+				}
+			}
+		}
 	}
 	switch calleeName(&c.Call) {
 	case "(*hotline.Transaction).GetField":
